@@ -187,7 +187,11 @@ func collectLocs(err error) []locInfo {
 const (
 	exitMemoryCeiling = 97
 	memCeilingBytes   = 3 << 30   // RSS ceiling of one worker
-	maxStackBytes     = 128 << 20 // goroutine stack ceiling (default is 1 GiB): a runaway recursion dies quickly
+	// goroutine stack ceiling of pooled workers (Go's default is 1 GiB): a runaway
+	// recursion dies quickly. The confirmation run uses Go's default, so that only
+	// what kills the real tool counts (text/template gives up with an error at
+	// depth 100 000, which needs more than 128 MiB but less than 1 GiB of stack).
+	maxStackBytes = 128 << 20
 )
 
 func rssBytes() int64 {
@@ -212,10 +216,16 @@ func selfCPU() time.Duration {
 }
 
 func workerMain() {
-	debug.SetMaxStack(maxStackBytes)
+	if os.Getenv("C11_MAXSTACK") != "default" {
+		debug.SetMaxStack(maxStackBytes)
+	}
+	parent := os.Getppid()
 	go func() {
 		for {
 			time.Sleep(20 * time.Millisecond)
+			if os.Getppid() != parent {
+				os.Exit(99) // orphaned
+			}
 			if r := rssBytes(); r > memCeilingBytes {
 				fmt.Fprintf(os.Stderr, "C11-MEMORY-CEILING rss=%d\n", r)
 				os.Exit(exitMemoryCeiling)
@@ -279,16 +289,24 @@ type worker struct {
 	lines  chan []byte
 }
 
-func startWorker() (*worker, error) {
+func startWorker() (*worker, error) { return startWorkerOpt(false) }
+
+func startWorkerOpt(defaultStack bool) (*worker, error) {
 	exe, err := os.Executable()
 	if err != nil {
 		return nil, err
 	}
 	cmd := exec.Command(exe, "-test.run", "^$")
 	cmd.Env = append(os.Environ(), "C11_WORKER=1", "GOTRACEBACK=single", "GOMAXPROCS=2", "GOGC=400")
+	if defaultStack {
+		cmd.Env = append(cmd.Env, "C11_MAXSTACK=default")
+	}
 	if dir := os.Getenv("VERIF_SCRATCH"); dir != "" {
 		cmd.Dir = dir
 	}
+	// a worker spinning in an endless loop must not outlive a parent that was
+	// itself killed (test timeout): see also the getppid poll in workerMain
+	cmd.SysProcAttr = &syscall.SysProcAttr{Pdeathsig: syscall.SIGKILL}
 	stdin, err := cmd.StdinPipe()
 	if err != nil {
 		return nil, err
@@ -475,13 +493,13 @@ func execute(req request) (v verdict, unconfirmed string) {
 		return v, ""
 	}
 	first := v
-	w2, err := startWorker()
+	w2, err := startWorkerOpt(true)
 	if err != nil {
 		panic(fmt.Sprintf("c11 harness: cannot start worker: %v", err))
 	}
 	v2, alive2 := w2.run(req, confirmBudget(req))
 	if alive2 {
-		workers.put(w2)
+		w2.kill() // not pooled: it runs with the default stack ceiling
 		return v2, fmt.Sprintf("first run: %s (exit %d, %d ms); re-run alone: %s in %d ms", first.Class, first.ExitCode, first.MS, v2.Class, v2.MS)
 	}
 	if v2.Class != first.Class && first.Stage != "send" {
